@@ -113,8 +113,19 @@ pub fn check(case: &Case) -> Outcome {
     }
     // 2. through the action
     let mut action = action_from_filters(&case.filters);
-    let got2 = action.filter_headers(input, 200, false, None);
+    let got2 = action.filter_headers(input.clone(), 200, false, None);
     if let Some(m) = compare(&expected, &got2, "Action::filter_headers") {
+        out.fail(m);
+        return out;
+    }
+    // "any response header list": the same action value serves every response it is asked about
+    let got3 = action.filter_headers(input.clone(), 200, false, None);
+    if let Some(m) = compare(&expected, &got3, "Action::filter_headers, second use of the same action") {
+        out.fail(m);
+        return out;
+    }
+    let got4 = action.clone().filter_headers(input, 200, false, None);
+    if let Some(m) = compare(&expected, &got4, "Action::filter_headers on a clone taken after use") {
         out.fail(m);
         return out;
     }
@@ -240,8 +251,13 @@ pub fn check_merged(case: &MergedCase) -> Outcome {
     let all: Vec<(String, String, String)> = sorted.iter().flat_map(|r| r.header_filters.clone().unwrap_or_default().into_iter().map(|f| (f.action, f.header, f.value))).collect();
     let expected = m_headers(&case.headers, &all);
     let input: Vec<Header> = case.headers.iter().map(|(n, v)| Header { name: n.clone(), value: v.clone() }).collect();
-    let got = action.filter_headers(input, 200, false, None);
+    let got = action.filter_headers(input.clone(), 200, false, None);
     if let Some(m) = compare(&expected, &got, "Action::filter_headers over merged rules") {
+        out.fail(m);
+        return out;
+    }
+    let again = action.filter_headers(input, 200, false, None);
+    if let Some(m) = compare(&expected, &again, "Action::filter_headers over merged rules, second use of the same action") {
         out.fail(m);
         return out;
     }
